@@ -48,6 +48,13 @@ func verifDir() string {
 	return "/verif"
 }
 
+func evidenceDir() string {
+	if d := os.Getenv("VERIF_EVIDENCE_DIR"); d != "" {
+		return d
+	}
+	return filepath.Join(verifDir(), "evidence")
+}
+
 func LoadProgram() (*Program, error) {
 	dir := repoDir()
 	src, err := harnessSource()
